@@ -78,6 +78,10 @@ pub fn run(tier: Tier, seed: u64) -> i32 {
         let locs: Vec<f64> = if !f.uses_loc { vec![0.0] } else if f.is32 { vec![0.0, 1.0, -1.0, 37.5, -37.5, 1e4, -1e4] } else { vec![0.0, 1.0, -1.0, 37.5, -37.5, 1e6, -1e6] };
         let mut scs: Vec<f64> = scales.to_vec();
         if f.allow_neg_scale { scs.push(-2.0); }
+        if f.kind == 0 && !f.name.starts_with("InverseGaussian") {
+            // scales next to the ends of the float range: the map must stay finite whenever its exact value is
+            if f.is32 { scs.extend_from_slice(&[2f64.powi(-100), 2f64.powi(126)]); } else { scs.extend_from_slice(&[2f64.powi(-1000), 2f64.powi(1022)]); }
+        }
         let canon = match (f.mk)(f.canon.0, f.canon.1) { Some(c) => c, None => continue };
         for &loc in &locs {
             for &scale in &scs {
@@ -97,6 +101,16 @@ pub fn run(tier: Tier, seed: u64) -> i32 {
                                 (Outcome::Done(a), Outcome::Done(b)) => (a.v, b.v),
                                 _ => continue, // panics / caps are C03 / C05 matters
                             };
+                            if x0.is_finite() && !x.is_finite() && f.kind == 0 {
+                                let is32 = f.is32;
+                                let e = loc + scale * x0;
+                                let lim = if is32 { f32::MAX as f64 } else { f64::MAX };
+                                if e.is_finite() && e.abs() < lim / 4.0 {
+                                    rep.violation(format!("{}|overflow|scale={}", f.name, if scale > 1e30 { "huge" } else { "other" }), format!("{} with location {loc}, scale {scale:e} returned {x:e} although the affine image {e:e} of the canonical sample {x0:e} is finite", f.name),
+                                        json!({"family": f.name, "location": loc, "scale": scale, "script_words": hex_words(&script), "base_seed": s}));
+                                }
+                                continue;
+                            }
                             if !x0.is_finite() || !x.is_finite() { continue; } // non-finite samples are a C03 matter (known findings)
                             let minpos = if f.is32 { f32::MIN_POSITIVE as f64 } else { f64::MIN_POSITIVE };
                             if f.kind == 1 && (x < minpos || x0 < minpos) { continue; } // underflow region of exp: outside envelope E
